@@ -241,7 +241,7 @@ def main(check_id, tier, replay_path=None):
         if match is not None:
             known_hits[match['id']] += 1 + merged.excluded.get(sig, 0)
             continue
-        if hasattr(module, 'shrink'):
+        if hasattr(module, 'shrink') and not os.environ.get('VERIF_NOSHRINK'):
             try:
                 failure = module.shrink(failure) or failure
             except Exception:   # shrinking is best effort
